@@ -175,9 +175,9 @@ Proof.
                      end).
       { specialize (IH (S n_iter) (tl attempts) El ltac:(lia)).
         destruct (rg_loop k V rq (eff_depth rq arg) partial ntypes max_attempts (S n_iter) (tl attempts)) as ([t'|e'], n); auto.
-        destruct IH as (H1 & H2 & H3 & H4). repeat split; auto; lia. }
+        destruct IH as (H1 & H2 & H3 & H4). split; [auto|split; [auto|split; [auto|lia]]]. }
       destruct ot as [t|]; auto. destruct (V t) eqn:Ev; auto.
-      apply attempt_spec in Ea. destruct Ea. repeat split; auto.
+      apply attempt_spec in Ea. destruct Ea. split; [auto|split; [auto|split; [auto|lia]]].
   - apply attempt_raise in Ea. destruct Ea. split; auto.
 Qed.
 
